@@ -812,20 +812,23 @@ type construct struct {
 	// recurses once per operator (the right operand is parsed by a recursive call), so such a chain is
 	// "nested" as far as stack use is concerned although nothing in the text looks nested.
 	flat bool
+	ops  int // flat chains: binary operators per unit (0 = 1)
 }
 
 // flatStackMiB is the stack limit under which the long rungs of the flat operator chains run. Each level of
 // a chain costs only ~200 bytes of stack, so at Go's default limit of 1 GiB an unbounded recursion needs
 // more than 5 million terms, several GiB of heap and a minute of stack copying before it dies; with the
-// limit lowered, a few hundred thousand terms do. The limit is still far above what a parser that bounds
-// its recursion needs: grammar_parse.go documents "at most a couple of kilobytes of stack" per level for
-// maxDepth = 10000 levels, i.e. about 20 MiB (measured on these chains: below 4 MiB).
-const flatStackMiB = 128
+// limit lowered, a few hundred thousand terms do (and the unchanged parser's answer, an error that quotes
+// the offending line, stays cheap: its cost grows with the length of that line). The limit is still far
+// above what a parser that bounds its recursion needs: grammar_parse.go documents "at most a couple of
+// kilobytes of stack" per level for maxDepth = 10000 levels, i.e. about 20 MiB for the most expensive
+// construct; on these chains 10000 levels take about 2 MiB.
+const flatStackMiB = 64
 
-// flatDeep is the length of the long rung of every flat chain: 3 million terms x ~200 bytes of stack per
-// term is well over flatStackMiB. (Rungs between the cap and this one are left out on purpose: a parser
+// flatDeep is the number of operators on the long rung of every flat chain: one million x ~200 bytes of
+// stack per operator is three times flatStackMiB. (Rungs between the cap and this one are left out on purpose: a parser
 // that does not bound the chain but survives it spends quadratic time hoisting the operators.)
-const flatDeep = 3000000
+const flatDeep = 1000000
 
 var constructs = []construct{
 	{name: "paren", prefix: "x = ", unit: "(", mid: "1", closeUnit: ")", suffix: "\n"},
@@ -854,11 +857,11 @@ var constructs = []construct{
 	{name: "chain-and", prefix: "x = a", unit: " and a", suffix: "\n", cap: 20000, flat: true},
 	{name: "chain-or", prefix: "x = a", unit: " or a", suffix: "\n", cap: 20000, flat: true},
 	{name: "chain-eq", prefix: "x = 1", unit: " == 1", suffix: "\n", cap: 20000, flat: true},
-	{name: "chain-mixed", prefix: "x = a", unit: " or a and not a == -1 % a", suffix: "\n", cap: 5000, flat: true},
+	{name: "chain-mixed", prefix: "x = a", unit: " or a and not a == -1 % a", suffix: "\n", cap: 5000, flat: true, ops: 4},
 	{name: "chain-not-in", prefix: "x = a", unit: " not in a", suffix: "\n", cap: 20000, flat: true},
 	{name: "chain-is-not", prefix: "x = a", unit: " is not a", suffix: "\n", cap: 20000, flat: true},
 	{name: "chain-list-concat", prefix: "srcs = []", unit: " + [\"a\"]", suffix: "\n", cap: 20000, flat: true},
-	{name: "chain-str-percent", prefix: "x = 'a'", unit: " % 'a' + 'b'", suffix: "\n", cap: 10000, flat: true},
+	{name: "chain-str-percent", prefix: "x = 'a'", unit: " % 'a' + 'b'", suffix: "\n", cap: 10000, flat: true, ops: 2},
 	{name: "chain-in-call-arg", prefix: "x = f(y = a", unit: " + a", suffix: ")\n", cap: 20000, flat: true},
 	{name: "chain-in-if-cond", prefix: "if a", unit: " and a", suffix: ":\n    pass\n", cap: 20000, flat: true},
 }
@@ -921,7 +924,7 @@ func depthTable(tier string) []depthCase {
 	// flat operator chains: the long rung, under a lowered stack limit (quick and thorough), ...
 	for _, c := range constructs {
 		if c.flat {
-			out = append(out, depthCase{Construct: c.name, Depth: flatDeep, Overflow: true, StackMiB: flatStackMiB})
+			out = append(out, depthCase{Construct: c.name, Depth: flatDeep / max(c.ops, 1), Overflow: true, StackMiB: flatStackMiB})
 		}
 	}
 	if tier == "thorough" {
@@ -944,8 +947,8 @@ func depthTable(tier string) []depthCase {
 			if c.name == "unindent-run" && d > 2000 {
 				d = 2000 // quadratic file size
 			}
-			if tier != "thorough" && c.flat && c.name != "binop-chain" && rung != 1000 && rung != 100000 {
-				continue // quick: the added chains get rungs 1000 and cap only (plus the long rung above)
+			if tier != "thorough" && c.flat && c.name != "binop-chain" && rung != 100000 {
+				continue // quick: the added chains get the rung at their cap only (plus the long rung above)
 			}
 			if tier != "thorough" && d > 10000 && !c.recursive() {
 				d = 10000 // iterative constructs: the deep rungs are left to the thorough tier
